@@ -26,7 +26,7 @@ CLAIMED = {
             "Machine-checked proof of prim2cons/cons2prim round trips and of each named variable's definition for euler1d, euler2d and shallow water; the 1D Mach clause is partial (signed in the code: known finding K2 with a witness theorem). Tied to the code by L-prim-* (a registered name without a model counterpart is a disagreement).",
             "Trusted: Lean kernel + standard axioms; transcription of the variable kernels (validated by L-prim-*); the nozzle massflow (times section) and one-value-per-cell clauses are checked by correspondence and sweep only.",
             "DESIGN.md 4/C17"),
-    'C18': ("Lean 4 theorems (formula, positivity, bilinearity; flux Jacobians proved to be derivatives of the model's consistent flux, exact eigenvalue sets, spectral radius) + translated kernel bodies + exact-Q correspondence",
+    'C18': ("Lean 4 theorems (formula, positivity, bilinearity; flux Jacobians proved to be derivatives of the model's consistent flux, exact eigenvalue sets, spectral radius; 2D: Jacobian of the normal flux for every normal, spectrum for unit normals, maximum over directions = |V|+c) + translated kernel bodies + exact-Q correspondence",
             "Machine-checked proof that each time-step kernel equals CFL*dx/(|u|+c) on prim2cons of any admissible state, is positive and bilinear in (CFL, dx); the closed-form Jacobians are proved (HasFDerivAt) to be the derivatives of the model's own consistent flux in conservative variables, their eigenvalues are exactly u-c,(u),u+c, hence the spectral radius is |u|+c, the denominator of the kernel (1D models; the 2D kernel |V|+c is proved as a formula only). Driver use of min / local array checked on the implementation.",
             "Trusted: Lean kernel + standard axioms; transcription of the timestep kernels (validated by L-dt); sampling for the driver clause.",
             "DESIGN.md 4/C18"),
